@@ -10,7 +10,7 @@ from ..common import AnalysisError, rel
 from ..fold import ClassVal, Instance, Opaque
 from ..protocol import Proto, Raises, STATES, DIRS, type_name
 from ..callgraph import CallGraph, arity_problem
-from .. import wiregram
+from .. import wiregram, shared
 from ..wiregram import Walker, inclusion, show_seq, Tok
 
 PKT = 'minecraft.networking.packets.packet'
@@ -716,18 +716,24 @@ def r5(report, db, P, cg, classes, versions):
         rd, _ = P.custom_codec(cv.ci)
         assigned = set()
         if rd is not None:
-            for f2 in [rd] + [x for x in db.funcs if x.cls is cv.ci]:
-                for nn in ast.walk(f2.node):
-                    if isinstance(nn, ast.Attribute) and isinstance(
-                            nn.ctx, ast.Store) and isinstance(
-                                nn.value, ast.Name) and nn.value.id == 'self':
-                        assigned.add(nn.attr)
-                    if isinstance(nn, ast.Call) and isinstance(
-                            nn.func, ast.Name) and nn.func.id == 'setattr':
-                        for c in ast.walk(f2.node):
-                            if isinstance(c, ast.Constant) and \
-                                    isinstance(c.value, str):
-                                assigned.add(c.value)
+            # what the reader's paths store on the packet (helpers inlined,
+            # loops over constant name tuples unrolled)
+            from ..pathsum import struct as _struct
+            S5 = getattr(report, '_s5', None)
+            if S5 is None:
+                S5 = report._s5 = shared.summariser(db, cg,
+                                                    implicit_raises=False)
+            me5 = ('sym', rd.params[0])
+            for p5 in S5.run(rd):
+                for e5 in p5.flat(('store',)):
+                    if _struct(e5.base) != me5:
+                        continue
+                    if not isinstance(e5.attr, str):
+                        raise AnalysisError(
+                            '%s.read stores an attribute whose name is not '
+                            'a constant' % cv.ci.qualname, e5.node,
+                            rel(rd.path))
+                    assigned.add(e5.attr)
         names = set()
         for v in versions[::25] + versions[-1:]:
             if not registered(P, cv, v):
